@@ -380,12 +380,19 @@ class Ctx:
     # ---------------------------------------------------------------- finishing
     def finish(self) -> int:
         wall = time.time() - self.t0
-        degenerate = []
+        # generator health: a class that (almost) never occurs makes the part vacuous -> harness error (exit 2);
+        # a class merely below its target fraction is reported in the evidence, not turned into a failure
+        degenerate, thin = [], []
         for part, cls, minimum in self.min_fractions:
             tot = self.part_evals.get(part, 0)
             got = self.classes.get(f"{part}:{cls}", 0)
-            if tot and got / tot < minimum:
-                degenerate.append(f"{part}:{cls} {got}/{tot} < {minimum}")
+            if tot and got / tot < minimum / 4:
+                degenerate.append(f"{part}:{cls} {got}/{tot} < {minimum}/4")
+            elif tot and got / tot < minimum:
+                thin.append(f"{part}:{cls} {got}/{tot} < {minimum}")
+        if thin:
+            self.notes["classes_below_target_fraction"] = thin
+            print("note: classes below their target fraction: " + "; ".join(thin), file=sys.stderr)
         rc = 0
         replay_dir = Path(os.environ.get("VERIF_REPLAY_DIR") or (VERIF / "replays")) / self.prop
         lines = []
